@@ -5,7 +5,7 @@ from harness import dtwgen
 
 COQ_FILES = ["theories/BandTie.v", "theories/PyWps.v", "theories/PyWpsProofs.v", "gen/Gen_cfill.v", "gen/Gen_cexpand.v",
              "theories/CFill.v", "theories/CExpand.v", "theories/CFillSim.v", "gen/Gen_pywps.v", "theories/PyWpsGen.v",
-             "gen/Gen_cwpsk.v", "gen/Gen_cexpw.v", "theories/CWpsCanon.v", "theories/CWpsKernel.v", "theories/CWpsTie.v", "theories/CWpsCanonEu.v", "theories/CWpsValue.v", "theories/CWpsSpec.v", "theories/CWpsTieEu.v", "theories/CWpsSpecEu.v", "theories/CExpW.v", "theories/CWpsPrune.v", "theories/CWpsSpecB.v", "theories/CWpsSpecBEu.v", "theories/CWpsValueB.v", "gen/Gen_cparts.v", "theories/CParts.v", "theories/CWpsFinal.v", "props/C04.v"]
+             "gen/Gen_cwpsk.v", "gen/Gen_cexpw.v", "theories/CWpsCanon.v", "theories/CWpsKernel.v", "theories/CWpsTie.v", "theories/CWpsCanonEu.v", "theories/CWpsValue.v", "theories/CWpsSpec.v", "theories/CWpsTieEu.v", "theories/CWpsSpecEu.v", "theories/CExpW.v", "theories/CWpsPrune.v", "theories/CWpsSpecB.v", "theories/CWpsSpecBEu.v", "theories/CWpsValueB.v", "gen/Gen_cdist.v", "theories/CDistCanon.v", "theories/CDistTie.v", "theories/CDistProofs.v", "theories/CDistSpec.v", "gen/Gen_cparts.v", "theories/CParts.v", "theories/CWpsFinal.v", "props/C04.v"]
 THEOREMS = [("DVProps.C04", "C04_cell_lower_bound"), ("DVProps.C04", "C04_cell_attained"),
             ("DVProps.C04", "C04_matrix_shape"), ("DVProps.C04", "C04_out_of_band_inf"),
             ("DVProps.C04", "C04_code_matrix_is_spec"), ("DVProps.C04", "C04_code_matrix_with_bound"),
@@ -16,7 +16,8 @@ THEOREMS = [("DVProps.C04", "C04_cell_lower_bound"), ("DVProps.C04", "C04_cell_a
             ("DVProps.C04", "C04_c_wps_kernel_as_written"),
             ("DVProps.C04", "C04_c_wps_kernel_returns_the_dtw_value"),
             ("DVProps.C04", "C04_c_wps_euclidean_kernel_as_written"),
-            ("DVProps.C04", "C04_c_fill_then_expand_as_written")]
+            ("DVProps.C04", "C04_c_fill_then_expand_as_written"),
+            ("DVProps.C04", "C04_c_wps_value_is_the_distance_kernels_value")]
 TRUSTED_BASE = [
     "Coq 8.16.1 kernel (no native_compute)",
     "tools/translate_py.py (band expressions of dtw.warping_paths regenerated into coq/gen/Gen_dtw.v)",
